@@ -43,6 +43,37 @@ def outOfUnit (t : Rat) : Bool := decide (t ≥ 1) || decide (t ≤ 0)
 /-- the interpolated vertex written by the kernels -/
 def placeVal (v1 v2 : Val) (t : Option Rat) : Val := (P2.place v1.p2 v2.p2 t).toVal
 
+/-- the editing part of `insert_vertex_on_edge` on a one-dart edge (after validation and reads) -/
+def insertVertexBody1 (n : Nat) (v1 v2 : Val) (base1 b1d1_old nd1 : Nat) (t : Option Rat) : P Val Unit := do
+  whenP (b1d1_old ≠ 0) (oneUnlinkCore base1)
+  oneLinkCore base1 nd1
+  oneLinkCore nd1 b1d1_old
+  let vnew ← vertexId2 n nd1
+  let _ ← writeVtx vnew (placeVal v1 v2 t)
+  pure ()
+
+/-- the editing part of `insert_vertex_on_edge` on a two-dart edge -/
+def insertVertexBody2 (n : Nat) (v1 v2 : Val) (base1 base2 b1d1_old b1d2_old nd1 nd2 : Nat) (t : Option Rat) :
+    P Val Unit := do
+  whenP (b1d1_old ≠ 0) (oneUnlinkCore base1)
+  whenP (b1d2_old ≠ 0) (oneUnlinkCore base2)
+  iUnlinkCore 2 base1
+  oneLinkCore base1 nd1
+  whenP (b1d1_old ≠ 0) (oneLinkCore nd1 b1d1_old)
+  oneLinkCore base2 nd2
+  whenP (b1d2_old ≠ 0) (oneLinkCore nd2 b1d2_old)
+  iLinkCore 2 base1 nd2
+  iLinkCore 2 base2 nd1
+  let vnew ← vertexId2 n nd1
+  let _ ← writeVtx vnew (placeVal v1 v2 t)
+  pure ()
+
+/-- `match (read_vertex(vid1)?, read_vertex(vid2)?) { (Some, Some) => …, _ => abort(UndefinedEdge) }` -/
+def withEnds {α : Type} (v1 v2 : Option Val) (k : Val → Val → P Val α) : P Val α :=
+  match v1, v2 with
+  | some v1, some v2 => k v1 v2
+  | _, _ => abort errUndefinedEdge
+
 /-- `insert_vertex_on_edge(cmap, trans, edge_id, (nd1, nd2), midpoint_vertex)` -/
 def insertVertexOnEdge (n : Nat) (c : Map Val) (e nd1 nd2 : Nat) (t : Option Rat) : P Val Unit := do
   if (match t with | some t => outOfUnit t | none => false) then abort errVertexBound else
@@ -59,15 +90,7 @@ def insertVertexOnEdge (n : Nat) (c : Map Val) (e nd1 nd2 : Nat) (t : Option Rat
     let vid2 ← vertexId2 n b1d1_old
     let v1 ← rA 0 vid1
     let v2 ← rA 0 vid2
-    match v1, v2 with
-    | some v1, some v2 => do
-        whenP (b1d1_old ≠ 0) (oneUnlinkCore base1)
-        oneLinkCore base1 nd1
-        oneLinkCore nd1 b1d1_old
-        let vnew ← vertexId2 n nd1
-        let _ ← writeVertex vnew (placeVal v1 v2 t)
-        pure ()
-    | _, _ => abort errUndefinedEdge
+    withEnds v1 v2 fun v1 v2 => insertVertexBody1 n v1 v2 base1 b1d1_old nd1 t
   else do
     let b1d1_old ← rB 1 base1
     let b1d2_old ← rB 1 base2
@@ -75,28 +98,14 @@ def insertVertexOnEdge (n : Nat) (c : Map Val) (e nd1 nd2 : Nat) (t : Option Rat
     let vid2 ← vertexId2 n base2
     let v1 ← rA 0 vid1
     let v2 ← rA 0 vid2
-    match v1, v2 with
-    | some v1, some v2 => do
-        whenP (b1d1_old ≠ 0) (oneUnlinkCore base1)
-        whenP (b1d2_old ≠ 0) (oneUnlinkCore base2)
-        iUnlinkCore 2 base1
-        oneLinkCore base1 nd1
-        whenP (b1d1_old ≠ 0) (oneLinkCore nd1 b1d1_old)
-        oneLinkCore base2 nd2
-        whenP (b1d2_old ≠ 0) (oneLinkCore nd2 b1d2_old)
-        iLinkCore 2 base1 nd2
-        iLinkCore 2 base2 nd1
-        let vnew ← vertexId2 n nd1
-        let _ ← writeVertex vnew (placeVal v1 v2 t)
-        pure ()
-    | _, _ => abort errUndefinedEdge
+    withEnds v1 v2 fun v1 v2 => insertVertexBody2 n v1 v2 base1 base2 b1d1_old b1d2_old nd1 nd2 t
 
 /-- first side: `for (&t, &new_d) in ts.zip(darts_fh) { link::<1>(prev, new_d); write_vertex(new_d, v1 + seg * t); prev = new_d }` -/
 def chainFirst (v1 v2 : Val) : Nat → List (Rat × Nat) → P Val Nat
   | prev, [] => pure prev
   | prev, (t, nd) :: rest => do
       oneLinkCore prev nd
-      let _ ← writeVertex nd (placeVal v1 v2 (some t))
+      let _ ← writeVtx nd (placeVal v1 v2 (some t))
       chainFirst v1 v2 nd rest
 
 /-- second side: `for (d, new_d) in darts_fh.rev().zip(darts_sh) { link::<2>(prev, d); link::<1>(prev, new_d); prev = new_d }` -/
@@ -106,6 +115,31 @@ def chainSecond : Nat → List (Nat × Nat) → P Val Nat
       iLinkCore 2 prev d
       oneLinkCore prev nd
       chainSecond nd rest
+
+/-- the second side of `insert_vertices_on_edge` (`if base_dart2 != NULL_DART_ID { … }`) -/
+def insertVerticesSide2 (base1 base2 : Nat) (fh sh : List Nat) : P Val Unit := do
+  let b1d2_old ← rB 1 base2
+  whenP (b1d2_old ≠ 0) (oneUnlinkCore base2)
+  let prev ← chainSecond base2 (fh.reverse.zip sh)
+  whenP (b1d2_old ≠ 0) (oneLinkCore prev b1d2_old)
+  iLinkCore 2 prev base1
+
+/-- the editing part of `insert_vertices_on_edge` (after validation and reads) -/
+def insertVerticesBody (v1 v2 : Val) (base1 base2 b1d1_old : Nat) (fh sh : List Nat) (ts : List Rat) :
+    P Val Unit := do
+  whenP (b1d1_old ≠ 0) (oneUnlinkCore base1)
+  whenP (base2 ≠ 0) (iUnlinkCore 2 base1)
+  let prev ← chainFirst v1 v2 base1 (ts.zip fh)
+  -- unconditional, also when `b1d1_old` is the null dart (D8)
+  oneLinkCore prev b1d1_old
+  whenP (base2 ≠ 0) (insertVerticesSide2 base1 base2 fh sh)
+
+/-- the dart whose vertex is the second end point:
+    `if b1d1_old != 0 { b1d1_old } else if base_dart2 != 0 { base_dart2 } else { abort(UndefinedEdge)? }` -/
+def secondEnd (b1d1_old base2 : Nat) : P Val Nat :=
+  if b1d1_old ≠ 0 then pure b1d1_old
+  else if base2 ≠ 0 then pure base2
+  else abort errUndefinedEdge
 
 /-- `insert_vertices_on_edge(cmap, trans, edge_id, new_darts, midpoint_vertices)` -/
 def insertVerticesOnEdge (n : Nat) (c : Map Val) (e : Nat) (nds : List Nat) (ts : List Rat) : P Val Unit := do
@@ -124,25 +158,10 @@ def insertVerticesOnEdge (n : Nat) (c : Map Val) (e : Nat) (nds : List Nat) (ts 
   let base2 ← rB 2 base1
   let b1d1_old ← rB 1 base1
   let vid1 ← vertexId2 n base1
-  let tgt ← (if b1d1_old ≠ 0 then pure b1d1_old
-             else if base2 ≠ 0 then pure base2
-             else abort errUndefinedEdge : P Val Nat)
+  let tgt ← secondEnd b1d1_old base2
   let vid2 ← vertexId2 n tgt
   let v1 ← rA 0 vid1
   let v2 ← rA 0 vid2
-  match v1, v2 with
-  | some v1, some v2 => do
-      whenP (b1d1_old ≠ 0) (oneUnlinkCore base1)
-      whenP (base2 ≠ 0) (iUnlinkCore 2 base1)
-      let prev ← chainFirst v1 v2 base1 (ts.zip fh)
-      -- unconditional, also when `b1d1_old` is the null dart (D8)
-      oneLinkCore prev b1d1_old
-      whenP (base2 ≠ 0) (do
-        let b1d2_old ← rB 1 base2
-        whenP (b1d2_old ≠ 0) (oneUnlinkCore base2)
-        let prev ← chainSecond base2 (fh.reverse.zip sh)
-        whenP (b1d2_old ≠ 0) (oneLinkCore prev b1d2_old)
-        iLinkCore 2 prev base1)
-  | _, _ => abort errUndefinedEdge
+  withEnds v1 v2 fun v1 v2 => insertVerticesBody v1 v2 base1 base2 b1d1_old fh sh ts
 
 end HC
